@@ -400,8 +400,10 @@ class VariationalWassersteinDistance(darsia.EMD):
         """
         # Define AMG solver
         self.setup_amg_options()
-        # NOTE: pyamg draws from numpy's global random state; do not alter it.
+        # NOTE: pyamg draws from numpy's global random state; do not alter it, and do
+        # not let the hierarchy (and thereby the result) depend on it.
         random_state = np.random.get_state()
+        np.random.seed(0)
         try:
             with warnings.catch_warnings():
                 warnings.filterwarnings(
@@ -445,8 +447,10 @@ class VariationalWassersteinDistance(darsia.EMD):
 
         # Define AMG preconditioner
         self.setup_amg_options()
-        # NOTE: pyamg draws from numpy's global random state; do not alter it.
+        # NOTE: pyamg draws from numpy's global random state; do not alter it, and do
+        # not let the hierarchy (and thereby the result) depend on it.
         random_state = np.random.get_state()
+        np.random.seed(0)
         try:
             with warnings.catch_warnings():
                 warnings.filterwarnings(
